@@ -31,7 +31,7 @@ TEXT = {
          'Lean kernel + Mathlib; `generate` => `verify` proved (hypotheses: forged scalars non-zero, no stray bitmap bits); generate refuses when any input tag equals the output tag; tie to C = differential testing + call-site guard facts.'),
  'C12': ('BIP-327 functions modelled object-for-object; honest-session completeness under the group law; byte-exact correspondence of all 15+ API functions incl. infinity nonces, duplicate keys, tweak chains, 64-bit counters.',
          'Lean kernel + Mathlib; "fails for any other key" is conditional (hash hypotheses); tie to C = differential testing.'),
- 'C13': ('partial_sign proved to leave the secret nonce all-zero on every path; zero/foreign nonces never sign; history invariant by induction over arbitrary call sequences; exhaustive enumeration of call histories (depth 3–4) against the real code with raw-byte inspection of the nonce objects.',
+ 'C13': ('The statement order of secp256k1_musig_partial_sign REGENERATED from the C source is proved to wipe the whole nonce object immediately after its load, before any exit, and to bind both coordinates (C13_seq); partial_sign proved to leave the secret nonce all-zero on every path; zero/foreign nonces never sign; history invariant by induction over arbitrary call sequences; exhaustive enumeration of call histories (depth 3–4) against the real code with raw-byte inspection of the nonce objects.',
          'Lean kernel; the model of partial_sign is hand-written and tied by correspondence (the wipe-order mutant is caught at history `gen sign:wrongkp`).'),
  'C14': ('encrypt→verify→decrypt→recover pipeline and verify guards modelled; completeness under the group law; every field mutation of the 162-byte format against the real code.',
          'Lean kernel + Mathlib; tie to C = differential testing.'),
